@@ -7,7 +7,8 @@ Part one (the first 13 theorems): the generic loops the evaluator is built from 
 `untilM`, `untilIdxM`, `firstM`).  Part two ("The real constructs"): the statements themselves —
 `evalStmt (n+1) (.while …)`, `(.iterate …)`, `(.branch …)`, `evalPureStmtBlock`, `evalExecBlock` — in the order
 1 输出 (`return_propagates_block`, `return_stops_while`, `return_stops_iterate_*`, `return_through_branch`,
-`return_stops_everything`, `return_ends_body`), 4 如果, 2 结束循环/继续循环, 3 遍历, 5 value of a body,
+`return_stops_everything` and its converse `return_path_complete` / `return_iff_path` — resting on
+`expression_keeps_caller_frame` —, `return_ends_body`), 4 如果, 2 结束循环/继续循环, 3 遍历, 5 value of a body,
 6 the same facts on the spec semantics.  Every implication is followed by an `example` that runs a toy
 program (toy numbers `Int`, machines `vm0`/`vm1`, programs of `Proofs/ControlFlow.lean` §Toy) through its
 hypotheses; where a program has more than one loop pass the hypotheses are checked by the kernel (`K`).
@@ -15,6 +16,7 @@ hypotheses; where a program has more than one loop pass the hypotheses are check
 import ZnVerif.Model.Interp
 import ZnVerif.Proofs.ControlFlow
 import ZnVerif.Proofs.ControlFlowSpec
+import ZnVerif.Proofs.RetPathComplete
 import ZnVerif.Proofs.LoopSignalsStmt
 import ZnVerif.Proofs.StmtRefineProgram
 import ZnVerif.Proofs.ToyNum
@@ -841,16 +843,115 @@ example : ∃ rv, ∃ sr s' : VM Int,
   apply RetPath.block (pre := []) (post := [.nil]) (.nil _ _) rfl
   exact RetPath.ret (fr := { moduleId := 0, callType := 1 }) (rest := []) (run_ok (evalExpr 1 _) _ K) K
 
-/-- NOT PROVED (kept as the full statement): the converse of `return_stops_everything` — `RetPath` describes *every*
-way in which a block can end `ok` with the slot newly set, i.e. only a 输出 statement of the block (at some depth)
-sets the slot of the frame the block runs in.  Missing: the frame discipline of `evalExpr` (a call that ends `ok`
-has pushed and popped exactly one frame and has not touched the caller's slot; handlers run in their own frame),
-an induction over the whole mutual evaluator that belongs to C08/C09.  `return_stops_everything` is the direction
-the property states ("输出 … ends … immediately"); this one would add "and nothing else does". -/
+/-- the full statement of the converse of `return_stops_everything` (proved below: `return_path_complete`):
+`RetPath` describes *every* way in which a block can end `ok` with the slot newly set, i.e. only a 输出 statement of
+the block (at some depth) sets the slot of the frame the block runs in. -/
 def return_path_complete_full : Prop :=
   ∀ (ν : Type) [NumOps ν] (n : Nat) (b : Option (List Stmt)) (s s' : VM ν) (r : Option Addr) (rv : Addr),
     retSlot s = none → evalPureStmtBlock n b s = (.ok r, s') → retSlot s' = some rv →
     ∃ sr, RetPath n (.block b) s rv sr s'
+
+/-- `expression_keeps_caller_frame` — the frame discipline the converse rests on (Proofs/RetKeep `allKeep`, on top
+of the whole-evaluator stack induction `allBal` of Proofs/StackBalBlock).  An expression that ends normally — whatever
+it calls: methods, object methods, constructors, bodies with 拦截 handlers, 输出 inside all of them — leaves the call
+stack it started from: same depth, the frames below the top one literally the same, and the top frame the same up to
+its line marker; in particular the return slot of the frame the expression is evaluated in is untouched (a call pushes
+one frame and a normal end has popped exactly that one; a handler runs in a frame of its own).  And an expression never
+ends with a loop signal. -/
+theorem expression_keeps_caller_frame (n : Nat) (e : Expr) (s s' : VM ν) (r : Res Addr)
+    (h : evalExpr n e s = (r, s')) :
+    (∀ a, r = .ok a → retSlot s' = retSlot s ∧ s'.stack.length = s.stack.length ∧ s'.stack.tail = s.stack.tail ∧
+      (s'.stack.head?.map fun fr => (fr.moduleId, fr.callType, fr.this, fr.ret)) =
+        (s.stack.head?.map fun fr => (fr.moduleId, fr.callType, fr.this, fr.ret))) ∧
+    r ≠ .err .sigBreak ∧ r ≠ .err .sigContinue := by
+  have hk := (ZnVerif.Proofs.RetKeep.allKeep (ν := ν) n).evalExpr e
+  have h1 := hk.same s; have h2 := hk.nosig s
+  rw [h] at h1 h2
+  refine ⟨fun a ha => ?_, fun hr => (by subst hr; cases h2), fun hr => (by subst hr; cases h2)⟩
+  subst ha
+  have hs := h1 rfl
+  refine ⟨(ZnVerif.Proofs.RetPathComplete.keep_run hk h).1 rfl, hs.length_eq, hs.tail_eq, ?_⟩
+  rcases (ZnVerif.Proofs.RetKeep.sameL_iff _ _).1 hs with ⟨e1, e2⟩ | ⟨f, f', rest, e1, e2, q1, q2, q3, q4⟩
+  · rw [e1, e2]
+  · rw [e1, e2]; simp [q1, q2, q3, q4]
+
+/-- `f` is defined as `如何f？ 输出 "x"`; the statement `（f）` is then run in the script frame: the callee's 输出 does
+not reach the caller's slot (it is still empty), the stack is the caller's -/
+example : ∃ a s', evalExpr 8 (.call 0 (some ⟨0, "f"⟩) [] none) withRetF = (.ok a, s') ∧ retSlot withRetF = none ∧
+    retSlot s' = none ∧ s'.stack.length = 1 ∧ s'.heap[a]? = some (.str "x") := by
+  have h := run_ok (evalExpr 8 (.call 0 (some ⟨0, "f"⟩) [] none)) withRetF K
+  obtain ⟨h1, h2, -⟩ := (expression_keeps_caller_frame 8 _ withRetF _ _ h).1 _ rfl
+  have h0 : retSlot withRetF = none := K
+  exact ⟨_, _, h, h0, by rw [h1]; exact h0, by rw [h2]; exact K, cell_str _ "x" K⟩
+
+/-- `return_path_complete` — the converse of `return_stops_everything`, for every fuel, block and machine state:
+a block that starts with the return slot of its frame empty and ends normally with the slot holding `rv` has run along
+a `RetPath`: through statements that ended normally with the slot empty, 假 conditions and complete loop passes into a
+输出 statement of the block itself (nested at some depth in blocks, 如果/再如/否则 alternatives, 每当 and 遍历 passes) that
+stored `rv`; `sr` is the machine right after that 输出.  Hence *only* a 输出 statement of the block sets the slot of the
+frame the block runs in — no expression does (`expression_keeps_caller_frame`: calls, constructors and handlers work
+in frames of their own), no declaration, no 抛出, no loop bookkeeping.  No side condition on the state is needed: with an
+empty call stack the slot reads as empty at the end as well (a 输出 there stores nothing), so the hypothesis
+`retSlot s' = some rv` already excludes it. -/
+theorem return_path_complete : return_path_complete_full := by
+  intro ν _ n b s s' r rv h0 h hrv
+  exact ((ZnVerif.Proofs.RetPathComplete.complete (ν := ν) n).2 b s s' (.ok r) h0 h).1 rfl rv hrv
+
+/-- the program `nested` (输出 "x" below 每当 / 如果 / 遍历, a Go-panic statement after every construct on the way) is run
+by the kernel; from the two facts "ended normally" and "the slot is set" the theorem reconstructs the path -/
+example : ∃ rv, ∃ sr s' : VM Int, RetPath 9 (.block (some nested)) vm0 rv sr s' := by
+  have h := run_ok (evalPureStmtBlock 9 (some nested)) vm0 K
+  obtain ⟨sr, hp⟩ := return_path_complete Int 9 (some nested) vm0 _ _ _ K h (slot_set _ K)
+  exact ⟨_, sr, _, hp⟩
+
+/-- the degenerate machine without any frame: 输出 stores nothing, the slot reads as empty afterwards — the
+hypothesis `retSlot s' = some rv` of `return_path_complete` cannot hold there, no side condition is needed -/
+example : ∃ r s', evalPureStmtBlock 4 (some [retX]) { vm0 with stack := [] } = (.ok r, s') ∧ retSlot s' = none :=
+  ⟨_, _, run_ok (evalPureStmtBlock 4 _) _ K, K⟩
+
+/-- … and the same for a single statement (a 如果, a 每当, a 遍历, a 输出 …): if it ends normally with the slot newly
+set, it ran along a `RetPath`. -/
+theorem return_path_complete_stmt (n : Nat) (st : Stmt) (s s' : VM ν) (v rv : Addr)
+    (h0 : retSlot s = none) (h : evalStmt n st s = (.ok v, s')) (hrv : retSlot s' = some rv) :
+    ∃ sr, RetPath n (.stmt st) s rv sr s' :=
+  ((ZnVerif.Proofs.RetPathComplete.complete (ν := ν) n).1 st s s' (.ok v) h0 h).1 rfl rv hrv
+
+example : ∃ rv, ∃ sr s' : VM Int, RetPath 7 (.stmt (.while 0 cTrue (some retSecondTime))) vm1 rv sr s' := by
+  have h := run_ok (evalStmt 7 (.while 0 cTrue (some retSecondTime))) vm1 K
+  obtain ⟨sr, hp⟩ := return_path_complete_stmt 7 _ vm1 _ _ _ K h (slot_set _ K)
+  exact ⟨_, sr, _, hp⟩
+
+/-- `return_iff_path`: the two directions together.  From a state with the slot empty, "the block ends normally with
+the slot holding `rv`" and "there is a path into a 输出 of the block that stores `rv`" are the same thing; and then the
+value of the block is `rv`. -/
+theorem return_iff_path (n : Nat) (b : Option (List Stmt)) (s s' : VM ν) (rv : Addr) (h0 : retSlot s = none) :
+    ((∃ r, evalPureStmtBlock n b s = (.ok r, s')) ∧ retSlot s' = some rv) ↔ ∃ sr, RetPath n (.block b) s rv sr s' := by
+  constructor
+  · rintro ⟨⟨r, h⟩, hrv⟩
+    exact return_path_complete ν n b s s' r rv h0 h hrv
+  · rintro ⟨sr, hp⟩
+    have h' := return_stops_everything hp
+    exact ⟨⟨_, h'.2.2.2 b rfl⟩, h'.1⟩
+
+example : ∃ rv, ∃ s' : VM Int, ((∃ r, evalPureStmtBlock 9 (some nested) vm0 = (.ok r, s')) ∧ retSlot s' = some rv) ∧
+    ∃ sr, RetPath 9 (.block (some nested)) vm0 rv sr s' := by
+  have h := run_ok (evalPureStmtBlock 9 (some nested)) vm0 K
+  have hs := slot_set (evalPureStmtBlock 9 (some nested) vm0).2 K
+  exact ⟨_, _, ⟨⟨_, h⟩, hs⟩, (return_iff_path 9 (some nested) vm0 _ _ K).1 ⟨⟨_, h⟩, hs⟩⟩
+
+/-- `loop_signal_leaves_slot_empty`: the companion fact of the induction.  A block (or statement) that starts with the
+slot empty and ends with 结束循环 / 继续循环 leaves the slot empty: so every pass of the loop that catches the signal
+starts with the slot empty, like the first one. -/
+theorem loop_signal_leaves_slot_empty (n : Nat) (b : Option (List Stmt)) (s s' : VM ν) (e : Err)
+    (h0 : retSlot s = none) (h : evalPureStmtBlock n b s = (.err e, s')) (he : e = .sigBreak ∨ e = .sigContinue) :
+    retSlot s' = none := by
+  refine ((ZnVerif.Proofs.RetPathComplete.complete (ν := ν) n).2 b s s' (.err e) h0 h).2 ?_
+  rcases he with rfl | rfl <;> rfl
+
+example : ∃ s' : VM Int, evalPureStmtBlock 4 (some [.empty 0, .continue 0, .nil]) vm0 = (.err .sigContinue, s') ∧
+    retSlot s' = none :=
+  ⟨_, run_err (evalPureStmtBlock 4 _) _ _ K,
+    loop_signal_leaves_slot_empty 4 _ vm0 _ _ K (run_err (evalPureStmtBlock 4 _) _ _ K) (.inr rfl)⟩
 
 /-! ## 5. the value of a body -/
 
